@@ -34,7 +34,8 @@ Fixpoint kv_eqb (a b : list (key * Z)) : bool :=
   | _, _ => false
   end.
 
-Definition structural (f : Z) : bool := (f =? F_HINT) || (5 <=? f).
+(* outcome codes after which the real tree is not compared with the model (only F_ZSEP still occurs) *)
+Definition structural (f : Z) : bool := 5 <=? f.
 
 (* walk the steps: model state, page map, first structural class reached by the model so far *)
 Fixpoint judge_steps (tbl : list key) (s : state val) (pg : pagemap) (cls : Z) (steps : list cstep)
